@@ -313,6 +313,14 @@ def _iter_part(g: G) -> G:
 def _min_point(rc: RuleCtx):
     res = rc.res
     fi = rc.func("rdp.min_point_rdp")
+    # another formulation: the private loops driven directly (one search resumed from threshold to threshold).  Its equivalence with
+    # "one fresh grdp run per threshold" is the prefix property itself: not read by the rules below
+    for c_ in ast.walk(fi.node):
+        if isinstance(c_, ast.Call):
+            r_ = rc.lk.resolve(fi.module, c_.func)
+            if r_.kind == "func" and r_.obj.qualname in ("rdp._grdp", "rdp._rdp_fixed"):
+                raise AnalysisError(f"{fi.qualname}: the result is assembled from the private loops ({r_.obj.qualname}) instead of one grdp / rdp_fixed call per "
+                                    "threshold - shape not recognised")
     ev = rc.new_eval()
     ev.no_inline |= {"rdp.grdp", "rdp.rdp_fixed"}
     pts = ev.point("points", True)
@@ -452,6 +460,17 @@ def _min_point(rc: RuleCtx):
                     res.violation("G5", fi.module, fi.name, fi.node, "the fallback is not rdp_fixed(points, min_points)", _short(Rat.from_atom(call), 120),
                                   "return rdp_fixed(points, min_points)", construct="fallback")
             else:
+                def _mentions_worker(v_):
+                    for x_ in (v_.items if isinstance(v_, Vec) else [v_]):
+                        if isinstance(x_, Rat) and any(a_.kind == "fn" and a_.name in ("call:rdp._grdp", "call:rdp._rdp_fixed", "call:rdp.compute_removed_points")
+                                                       for a_ in x_.all_atoms()):
+                            return True
+                    return False
+                if _mentions_worker(vc):
+                    # the loops are driven directly (one search resumed from threshold to threshold): another formulation, whose equivalence
+                    # with "one fresh grdp run per threshold" is the prefix property itself - not read here
+                    raise AnalysisError(f"{fi.qualname}: the result is assembled from the private loops (_grdp / _rdp_fixed) instead of one grdp / rdp_fixed call per "
+                                        "threshold - shape not recognised")
                 ok = False
                 res.violation("G5", fi.module, fi.name, fi.node,
                               "a returned (reduced, removed) pair is neither one grdp(points, t=current_t) result nor rdp_fixed(points, min_points)",
